@@ -1,6 +1,7 @@
 package main
 
 import (
+	"sync"
 	"fmt"
 	"sort"
 	"strings"
@@ -28,8 +29,12 @@ type Script struct {
 	decls   map[string]bool
 	zarrs   map[string][2]string // zero-filled array constants: name -> (element sort, zero term)
 	noDef   int                  // > 0: def() leaves terms un-named (canonical texts)
-	seen    map[string]bool      // assertions already emitted (identical instances are dropped)
+	seenAt  map[string]int       // assertions already emitted (identical instances are dropped) -> line
+	onceR   map[string][2]int    // generator-level once-only facts -> their line range
 	defs    map[string]string    // body -> name of an existing definition (hash-consing)
+	defLine  map[string]int
+	defLineN int
+	mu       sync.Mutex
 }
 
 func newScript() *Script {
@@ -98,14 +103,37 @@ func (s *Script) assume(f string) {
 }
 
 func (s *Script) emit(line string) {
-	if s.seen == nil {
-		s.seen = map[string]bool{}
+	if s.seenAt == nil {
+		s.seenAt = map[string]int{}
 	}
-	if s.seen[line] {
+	if at, ok := s.seenAt[line]; ok {
+		// already emitted: leave a reference, so that a slice of the script taken at this point
+		// still contains the fact
+		s.lines = append(s.lines, fmt.Sprintf("; ref %d %d", at, at+1))
 		return
 	}
-	s.seen[line] = true
+	s.seenAt[line] = len(s.lines)
 	s.lines = append(s.lines, line)
+}
+
+// hit / rec: a generator-level cache of facts emitted once. hit reports whether the facts for
+// key were emitted before and, if so, leaves a reference to them at the current point.
+func (s *Script) hit(key string) bool {
+	r, ok := s.onceR[key]
+	if !ok {
+		return false
+	}
+	if r[1] > r[0] {
+		s.lines = append(s.lines, fmt.Sprintf("; ref %d %d", r[0], r[1]))
+	}
+	return true
+}
+
+func (s *Script) rec(key string, start int) {
+	if s.onceR == nil {
+		s.onceR = map[string][2]int{}
+	}
+	s.onceR[key] = [2]int{start, len(s.lines)}
 }
 
 func (s *Script) assumeUnder(pc, f string) {
@@ -141,6 +169,9 @@ func (s *Script) litDecls() string {
 		n := s.lits[v]
 		sb.WriteString(fmt.Sprintf("(declare-const %s B) ; %q\n", n, v))
 		sb.WriteString(fmt.Sprintf("(assert (= (blen %s) %d))\n", n, len(v)))
+		if len(v) == 1 {
+			sb.WriteString(fmt.Sprintf("(assert (= %s (chr %d)))\n", n, v[0]))
+		}
 		if len(v) <= 16 {
 			for k := 0; k < len(v); k++ {
 				sb.WriteString(fmt.Sprintf("(assert (= (at %s %d) %d))\n", n, k, v[k]))
@@ -194,6 +225,87 @@ func (s *Script) zarrDecls(strMode bool) string {
 }
 
 func (s *Script) body() string { return strings.Join(s.lines, "\n") }
+
+// bodyFor assembles the part of the script an obligation can depend on: the lines in its
+// ranges (everything emitted up to the program point it belongs to, plus what its own
+// translation emitted), closed under the definitions those lines mention. Leaving out
+// hypotheses learnt at later program points is sound (fewer assumptions) and keeps queries small.
+func (s *Script) bodyFor(ranges [][2]int, seeds ...string) string {
+	if len(ranges) == 0 {
+		return s.body()
+	}
+	if s.defLine == nil || s.defLineN != len(s.lines) {
+		s.defLine = map[string]int{}
+		for k, ln := range s.lines {
+			if strings.HasPrefix(ln, "(define-fun ") || strings.HasPrefix(ln, "(declare-const ") || strings.HasPrefix(ln, "(declare-fun ") {
+				rest := ln[strings.Index(ln, " ")+1:]
+				if j := strings.IndexAny(rest, " )"); j > 0 {
+					s.defLine[rest[:j]] = k
+				}
+			}
+		}
+		s.defLineN = len(s.lines)
+	}
+	in := make([]bool, len(s.lines))
+	var work []int
+	for _, r := range ranges {
+		for k := r[0]; k < r[1] && k < len(s.lines); k++ {
+			if !in[k] {
+				in[k] = true
+				work = append(work, k)
+			}
+		}
+	}
+	isSym := func(c byte) bool {
+		return c >= 'a' && c <= 'z' || c >= 'A' && c <= 'Z' || c >= '0' && c <= '9' || c == '.' || c == '_' || c == '$' || c == '-' || c == '!' || c == '#' || c == '@' || c == '*'
+	}
+	scanned := 0
+	for len(work) > 0 || scanned < len(seeds) {
+		var ln string
+		if scanned < len(seeds) {
+			ln = seeds[scanned]
+			scanned++
+		} else {
+			k := work[len(work)-1]
+			work = work[:len(work)-1]
+			ln = s.lines[k]
+		}
+		if strings.HasPrefix(ln, "; ref ") {
+			var a, b int
+			fmt.Sscanf(ln, "; ref %d %d", &a, &b)
+			for k := a; k < b && k < len(s.lines); k++ {
+				if !in[k] {
+					in[k] = true
+					work = append(work, k)
+				}
+			}
+			continue
+		}
+		for i := 0; i < len(ln); {
+			if !isSym(ln[i]) {
+				i++
+				continue
+			}
+			j := i
+			for j < len(ln) && isSym(ln[j]) {
+				j++
+			}
+			if d, ok := s.defLine[ln[i:j]]; ok && !in[d] {
+				in[d] = true
+				work = append(work, d)
+			}
+			i = j
+		}
+	}
+	var sb strings.Builder
+	for k, ln := range s.lines {
+		if in[k] {
+			sb.WriteString(ln)
+			sb.WriteByte('\n')
+		}
+	}
+	return sb.String()
+}
 
 // ---------- term helpers ----------
 
@@ -350,6 +462,7 @@ const preludeBytesAbs = `(declare-sort B 0)
 (assert (forall ((x B)) (! (>= (blen x) 0) :pattern ((blen x)))))
 (assert (forall ((x B)) (! (=> (= (blen x) 0) (= x eps)) :pattern ((blen x)))))
 (assert (= (blen eps) 0))
+(assert (forall ((x B)) (! (=> (le x eps) (= x eps)) :pattern ((le x eps)))))
 (assert (forall ((x B) (y B)) (! (=> (and (pre x y) (= (blen x) (blen y))) (= x y)) :pattern ((pre x y)))))
 (assert (forall ((x B) (y B)) (! (=> (pre x y) (<= (blen x) (blen y))) :pattern ((pre x y)))))
 (assert (forall ((x B) (y B)) (! (= (blen (cat x y)) (+ (blen x) (blen y))) :pattern ((cat x y)))))
@@ -385,7 +498,7 @@ const preludeCommon = `(declare-datatypes ((NB 0)) (((mk (isnil Bool) (val B))))
 (declare-sort F64 0)
 (declare-datatypes ((Any 0)) (((ANil) (ABool (a.b Bool)) (AInt (a.it Int) (a.i Int)) (AFlt (a.ft Int) (a.f F64)) (AStr (a.s NB)) (ABytes (a.y NB)) (ARef (a.rt Int) (a.r Int)) (ASlc (a.st Int) (a.sl Slc)) (AOther (a.ot Int) (a.o Int)))))
 (declare-fun dyn (Int) Int)
-(define-fun kindcode ((x Any)) Int (ite ((_ is ANil) x) 0 (ite ((_ is ABool) x) 1 (ite ((_ is AStr) x) 2 (ite ((_ is ABytes) x) 3 (ite ((_ is AInt) x) (+ 1000 (a.it x)) (ite ((_ is AFlt) x) (+ 2000 (a.ft x)) (ite ((_ is ARef) x) (+ 3000 (a.rt x)) (ite ((_ is ASlc) x) (+ 4000 (a.st x)) (+ 5000 (a.ot x)))))))))))
+(define-fun kindcode ((x Any)) Int (ite ((_ is ANil) x) 0 (ite ((_ is ABool) x) 1 (ite ((_ is AStr) x) 2 (ite ((_ is ABytes) x) 3 (ite ((_ is AInt) x) (+ 4 (* 10 (a.it x))) (ite ((_ is AFlt) x) (+ 5 (* 10 (a.ft x))) (ite ((_ is ARef) x) (+ 6 (* 10 (a.rt x))) (ite ((_ is ASlc) x) (+ 7 (* 10 (a.st x))) (+ 8 (* 10 (a.ot x))))))))))))
 (define-fun cmp ((a B) (b B)) Int (ite (= a b) 0 (ite (le a b) (- 1) 1)))
 (define-fun lt ((a B) (b B)) Bool (and (le a b) (not (= a b))))
 (declare-const RK Int)
